@@ -8,12 +8,15 @@ import Vipnode.Drv.Pool
 import Vipnode.Drv.Server
 import Vipnode.Drv.Codec
 import Vipnode.Drv.Uri
+import Vipnode.Drv.Agent
 open Vipnode Vipnode.Drv
 
 structure DState where
   store : Store := {}
   pool : Pool := {}
   srv : AList Method := []
+  agent : AgentDrv := {}
+  life : Life := {}
 
 def stepLine (st : DState) (line : String) : DState × String :=
   let toks := (line.trimAscii.toString.splitOn " ").filter (· ≠ "")
@@ -27,6 +30,8 @@ def stepLine (st : DState) (line : String) : DState × String :=
   | "srv" :: args => let (s, o) := srvStep st.srv args; ({ st with srv := s }, o)
   | "codec" :: args => (st, codecStep args)
   | "uri" :: args => (st, uriStep args)
+  | "agent" :: args => let (s, o) := agentStep st.agent args; ({ st with agent := s }, o)
+  | "agentlife" :: args => let (s, o) := lifeDrvStep st.life args; ({ st with life := s }, o)
   | ["noop"] => (st, "noop")
   | [] => (st, "")
   | _ => (st, "bad-op")
